@@ -377,7 +377,8 @@ def trusted_base(extra=()):
     return ["Lean 4.33.0 kernel", "axioms: propext, Classical.choice, Quot.sound (+ per-theorem "
             "bv_decide LRAT-checker axioms where listed under theorem_axioms)",
             "harness/dump_tables.c + C compiler as table parser",
-            "tools/c2lean.py (clang JSON AST -> Lean BitVec; validated differentially every run)",
+            "tools/c2lean.py (clang JSON AST -> Lean BitVec; validated differentially every run); translated on this run: "
+            + ", ".join(C2LEAN_FNS) + " (DESIGN.md section 2.6 says what the translator assumes about C)",
             "correspondence check (differential testing) for every hand-written model function",
             "statement of the property as transcribed in lean/H3Proofs/Props"] + list(extra)
 
